@@ -47,23 +47,25 @@ class Fault(Exception):
 
 FAULT = {'at': None, 'count': 0, 'fired': None, 'armed': False,
          'match': None}
+INRUN = {'on': False}
 
 
 def statement_wrapper(alias):
     def wrapper(execute, sql, params, many, context):
         mut = bool(MUTATING_RE.match(sql))
         ev = emit('sql', alias=alias, sql=sql, params=_jsonable(params),
-                  ok=True, mutating=mut)
-        if mut and FAULT['armed'] and FAULT['at'] is not None:
-            if FAULT['match'] is None or FAULT['match'](sql):
-                FAULT['count'] += 1
-                if FAULT['count'] == FAULT['at']:
-                    from django.db.utils import OperationalError
-                    ev['ok'] = False
-                    ev['injected'] = True
-                    FAULT['fired'] = sql
-                    raise OperationalError('injected fault at #%d'
-                                           % FAULT['at'])
+                  ok=True, mutating=mut,
+                  inrun=bool(sys.modules[__name__].INRUN['on']))
+        if mut and FAULT['armed'] and (FAULT['match'] is None or
+                                       FAULT['match'](sql)):
+            FAULT['count'] += 1
+            ev['n'] = FAULT['count']
+            if FAULT['at'] is not None and FAULT['count'] == FAULT['at']:
+                from django.db.utils import OperationalError
+                ev['ok'] = False
+                ev['injected'] = True
+                FAULT['fired'] = sql
+                raise OperationalError('injected fault at #%d' % FAULT['at'])
         try:
             return execute(sql, params, many, context)
         except Exception as e:
